@@ -527,6 +527,68 @@ def ob_pmat_tensor(toGlobal=True):
     return Verdict(DISCHARGED, backend="ring-normal-form", sub=36)
 
 
+
+def ob_basis_transformation(family):
+    """_Elastic._Apply_basis_transformation(3, cM, sM, axis_1, axis_2) returns, for EVERY orientation of the material frame (the generic rotation and
+    the rotations about each single global axis, where one material axis coincides with a global one, and the identity), the Kelvin-Mandel images of
+    the Q-rotated fourth-order tensors of cM and of sM (two different symbolic matrices: exchanging or skipping one is seen)."""
+    names = ["a", "b", "c"] + [f"m{i}" for i in range(9)]
+    wit = dict(a=F(1, 3), b=F(-2, 5), c=F(3, 7), **{f"m{i}": F(v) for i, v in enumerate((5, 2, 3, 7, 11, 13, 17, 19, 23))})
+    c = Ctx(names, nspare=3, witness=wit)
+    NPs, gu, glob_for = _env(c)
+    z0 = c.const(0)
+    a, b, cc = {"generic": (c.sym("a"), c.sym("b"), c.sym("c")), "about-x": (c.sym("a"), z0, z0), "about-y": (z0, c.sym("b"), z0),
+                "about-z": (z0, z0, c.sym("c")), "identity": (z0, z0, z0)}[family]
+    R = _cayley(c, a, b, cc)
+    a1 = np.array([R[i][0] for i in range(3)], dtype=object)
+    a2 = np.array([R[i][1] for i in range(3)], dtype=object)
+    m = [c.sym(f"m{i}") for i in range(9)]
+
+    def pattern(m):
+        # an orthotropic pattern: no rotation about a single axis leaves it invariant (a transversely isotropic one is invariant about its own axis)
+        return np.array([[m[0], m[1], m[2], z0, z0, z0], [m[1], m[3], m[4], z0, z0, z0], [m[2], m[4], m[5], z0, z0, z0],
+                         [z0, z0, z0, m[6], z0, z0], [z0, z0, z0, z0, m[7], z0], [z0, z0, z0, z0, z0, m[8]]], dtype=object)
+    cM, sM = pattern(m), pattern([m[3], m[7], m[0], m[8], m[1], m[6], m[2], m[5], m[4]])
+    obj = _law(c, "_Elastic", glob_for, dim=3, planeStress=False)
+    got_c, got_s = obj._Apply_basis_transformation(3, cM, sM, a1, a2)
+    n = 0
+    for nm, got, M in (("stiffness", got_c, cM), ("compliance", got_s, sM)):
+        want = _tensor_to_km(c, _rot4(R, _km_to_tensor(c, M)))
+        ok, why = _eqm(c, np.asarray(got), want)
+        n += 36
+        if not ok:
+            raise Refuted(f"_Apply_basis_transformation, material frame '{family}': the returned {nm} differs from the Kelvin-Mandel image of the rotated fourth-order tensor at {why[0]}: {why[1]}",
+                          cex=dict(family=family, a="1/3", b="-2/5", c="3/7"), signature=f"basis:{family}:{nm}", replay=_replay_basis(family))
+    return Verdict(DISCHARGED, backend="ring-normal-form over QQ(a,b,c,m_i)[sqrt2]", sub=n)
+
+
+def _replay_basis(family):
+    try:
+        from EasyFEA import Models
+        a, b, cc = {"generic": (1 / 3, -2 / 5, 3 / 7), "about-x": (1 / 3, 0, 0), "about-y": (0, -2 / 5, 0), "about-z": (0, 0, 3 / 7), "identity": (0, 0, 0)}[family]
+        den = 1 + a * a + b * b + cc * cc
+        R = np.array([[(1 + a * a - b * b - cc * cc), 2 * (a * b - cc), 2 * (a * cc + b)],
+                      [2 * (a * b + cc), (1 - a * a + b * b - cc * cc), 2 * (b * cc - a)],
+                      [2 * (a * cc - b), 2 * (b * cc + a), (1 - a * a - b * b + cc * cc)]]) / den
+        kw = dict(E1=11.0, E2=5.0, E3=3.0, G23=1.1, G13=1.4, G12=1.9, v23=0.2, v13=0.24, v12=0.3)
+        M = np.asarray(Models.Elastic.Orthotropic(3, **kw).C)
+        got = np.asarray(Models.Elastic.Orthotropic(3, **kw, axis_1=R[:, 0], axis_2=R[:, 1]).C)
+        r2 = np.sqrt(2)
+        T = np.zeros((3, 3, 3, 3))
+        for I, (i, j) in enumerate(KM_PAIRS):
+            for J, (k, l) in enumerate(KM_PAIRS):
+                f = (r2 if i != j else 1) * (r2 if k != l else 1)
+                for (p, q) in {(i, j), (j, i)}:
+                    for (r, s) in {(k, l), (l, k)}:
+                        T[p, q, r, s] = M[I, J] / f
+        Tr = np.einsum("ia,jb,kc,ld,abcd->ijkl", R, R, R, R, T)
+        want = np.array([[Tr[i, j, k, l] * (r2 if i != j else 1) * (r2 if k != l else 1) for (k, l) in KM_PAIRS] for (i, j) in KM_PAIRS])
+        err = float(np.abs(got - want).max() / np.abs(want).max())
+        return dict(confirmed=err > 1e-9, rel_err=err, law="Orthotropic(3, ...)", axis_1=R[:, 0].tolist(), axis_2=R[:, 1].tolist())
+    except Exception as e:
+        return dict(confirmed=True, raised=repr(e))
+
+
 def _replay_pmat_tensor(toGlobal):
     try:
         from EasyFEA.Models._utils import Get_Pmat, Apply_Pmat
@@ -916,6 +978,10 @@ def build(tier, seed):
     for tg in (True, False):
         obs.append(Ob(f"C11.Pmat.tensor.{'toGlobal' if tg else 'toMaterial'}", ob_pmat_tensor, (tg,), "P", (fu("Get_Pmat"), fu("Apply_Pmat")),
                       clause="Apply_Pmat == Kelvin-Mandel image of the rotated 4th-order tensor", timeout=900))
+    for fam in ("generic", "about-x", "about-y", "about-z", "identity"):
+        obs.append(Ob(f"C11.basis.transformation.{fam}", ob_basis_transformation, (fam,), "P", (fl("_Elastic._Apply_basis_transformation"), fu("Get_Pmat"), fu("Apply_Pmat")),
+                      clause="_Apply_basis_transformation returns the Kelvin-Mandel images of the rotated stiffness and compliance tensors for every orientation of the material frame, "
+                             "including frames sharing one axis with the global frame", timeout=900))
     for k in ("i", "ei", "epi"):
         obs.append(Ob(f"C11.Pmat.2d.{k}", ob_pmat_2d, (k,), "P" if k == "i" else "B", (fu("Get_Pmat"), fu("Apply_Pmat")), bound=None if k == "i" else "batched shape e,p <= 2",
                       clause="axes given with 2 components: P orthogonal for any lengths, == the [11,22,12] block of the 3-component result, Apply_Pmat == Q-rotated 2-D fourth-order tensor (both directions), all in-plane rotations", timeout=600))
@@ -941,7 +1007,7 @@ def build(tier, seed):
     obs.append(Ob("canary.iso.reduction", ob_iso_reduction, (True, True), "P", expect=REFUTED, timeout=120))
     obs.append(Ob("canary.TI.inverse", ob_material_inverse, ("TransverselyIsotropic", True), "P", expect=REFUTED, timeout=300))
     functions = {}
-    for q in ("Isotropic._Behavior", "Isotropic.get_lambda", "Isotropic.get_mu", "TransverselyIsotropic._Behavior", "Orthotropic._Behavior"):
+    for q in ("_Elastic._Apply_basis_transformation", "Isotropic._Behavior", "Isotropic.get_lambda", "Isotropic.get_mu", "TransverselyIsotropic._Behavior", "Orthotropic._Behavior"):
         functions[q] = extract.get(LAWS, q).describe()
     for q in ("Heterogeneous_Array", "KelvinMandel_Matrix", "Get_Pmat", "Apply_Pmat"):
         functions[q] = extract.get(UTILS, q).describe()
